@@ -99,9 +99,29 @@ def guarded_execute(prop, sc, wall=None):
         signal.setitimer(signal.ITIMER_REAL, 0)
 
 
+_PINNED = False
+
+
+def _pin():
+    """Pin this worker process to one CPU: baton passing between the simulated threads of a run is then a
+    same-core hand-off (no cross-core wake-ups), which is what makes the TH engine scale with processes."""
+    global _PINNED
+    if _PINNED:
+        return
+    _PINNED = True
+    try:
+        cpus = sorted(os.sched_getaffinity(0))
+        ident = multiprocessing.current_process()._identity
+        idx = (ident[0] - 1) if ident else os.getpid()
+        os.sched_setaffinity(0, {cpus[idx % len(cpus)]})
+    except Exception:
+        pass
+
+
 def _chunk(args):
     pid, tier, vseed, start, count, deadline = args
     faulthandler.enable()
+    _pin()
     prop = load_prop(pid)
     agg = {
         "n": 0, "digests": set(), "nontrivial": 0, "probes": collections.Counter(), "faults": collections.Counter(),
@@ -202,8 +222,10 @@ def _set(root, path, value):
 
 
 def _is_event(n):
-    """[t, 'N'|'C'|'E', value?] triples are atomic for the shrinker."""
-    return 2 <= len(n) <= 3 and isinstance(n[1], str) and n[1] in ("N", "C", "E") and isinstance(n[0], (int, float))
+    """[t, 'N'|'C'|'E', value?] triples and ['opname', args...] call records are atomic for the shrinker."""
+    if 2 <= len(n) <= 3 and isinstance(n[1], str) and n[1] in ("N", "C", "E") and isinstance(n[0], (int, float)):
+        return True
+    return len(n) >= 1 and isinstance(n[0], str) and all(isinstance(x, (str, int, float, bool, type(None))) for x in n)
 
 
 def _candidates(sc, prop):
@@ -312,7 +334,7 @@ def check(pid, tier="quick", runs=None, procs=None, vseed=None, budget=None):
     tier = os.environ.get("VERIF_TIER", tier) if tier is None else tier
     runs = runs or (prop.quick_runs if tier == "quick" else prop.thorough_runs)
     budget = budget or (getattr(prop, "quick_budget", 60.0) if tier == "quick" else getattr(prop, "thorough_budget", 900.0))
-    procs = procs or min(16, os.cpu_count() or 1)
+    procs = procs or int(os.environ.get("VERIF_PROCS", "0")) or min(8, os.cpu_count() or 1)
     deadline = t0 + budget
     print("check %s tier=%s VERIF_SEED=%d runs<=%d procs=%d repo=%s" % (pid, tier, vseed, runs, procs, REPO))
     sys.stdout.flush()
